@@ -117,9 +117,10 @@ func genTree(t *rapid.T, o treeOpts) []mk.Entry {
 		o.styles = []int{0, 0, 1, 2, 3}
 	}
 	type dirInfo struct {
-		path  string
-		depth int
-		used  map[string]bool
+		path    string
+		depth   int
+		used    map[string]bool
+		subdirs []string
 	}
 	dirs := []*dirInfo{{path: "", depth: 0, used: map[string]bool{}}}
 	var out []mk.Entry
@@ -146,9 +147,18 @@ func genTree(t *rapid.T, o treeOpts) []mk.Entry {
 		d := dirs[rapid.IntRange(0, len(dirs)-1).Draw(t, "parent")]
 		kind := rapid.IntRange(0, 9).Draw(t, "entryKind")
 		name := genName(t, o.names, d.used, i)
+		if kind <= 2 && o.names != "fat" && len(d.subdirs) > 0 && rapid.IntRange(0, 5).Draw(t, "caseTwin") == 0 {
+			// a sibling directory whose name differs from an existing one only by case (distinct on every
+			// case-sensitive name space: Rock Ridge, Joliet, squashfs, ext4)
+			if tw := caseVariant(d.subdirs[len(d.subdirs)-1]); !d.used[tw] {
+				d.used[tw] = true
+				name = tw
+			}
+		}
 		p := path.Join(d.path, name)
 		switch {
 		case kind <= 2 && d.depth+1 < o.maxDepth:
+			d.subdirs = append(d.subdirs, name)
 			e := mk.Entry{Path: p, Kind: mk.KDir}
 			addMeta(&e)
 			out = append(out, e)
